@@ -35,6 +35,7 @@ func main() {
 	dump := flag.String("dump", "", "dump SSA of the named function (substring match) and exit")
 	list := flag.Bool("list", false, "list module functions and exit")
 	arch := flag.String("goarch", "", "GOARCH override")
+	pathsOf := flag.String("paths", "", "print the decision paths of the named node function (substring match) and exit")
 	flag.Parse()
 	if t := os.Getenv("VERIF_TIER"); t != "" && *tier == "" {
 		*tier = t
@@ -42,7 +43,7 @@ func main() {
 	seed, _ := strconv.Atoi(os.Getenv("VERIF_SEED"))
 	start := time.Now()
 
-	P, err := Load(*repo, *arch, true)
+	P, err := Load(*repo, *arch, false)
 	if err != nil {
 		fmt.Printf("BROKEN-CHECK property=%s: load failed: %v\n", *prop, err)
 		os.Exit(2)
@@ -65,6 +66,18 @@ func main() {
 	if err := P.discoverRoles(); err != nil {
 		fmt.Printf("BROKEN-CHECK property=%s: role discovery failed: %v\n", *prop, err)
 		os.Exit(2)
+	}
+	if *pathsOf != "" {
+		for _, fn := range P.Funcs {
+			if strings.Contains(fname(fn), *pathsOf) {
+				ps, cap := P.nodePaths(fn)
+				fmt.Printf("### %s: %d paths (cap hit: %v)\n", fname(fn), len(ps), cap)
+				for _, p := range ps {
+					fmt.Println("  ", p.String())
+				}
+			}
+		}
+		return
 	}
 	var ids []string
 	if *prop == "all" {
